@@ -624,8 +624,8 @@ R.mutant("close-connection-narrow-handler", POOL,
 R.mutant("r5-do-get-no-dec", "pool/impl.py",
          sub("            except:\n                with util.safe_reraise():\n                    self._dec_overflow()\n                raise\n", "            except:\n                raise\n"), "C26-R5")
 R.mutant("r5-finalize-no-invalidate", POOL,
-         sub("            if connection_record:\n                connection_record.invalidate(e=e)\n            if not isinstance(e, Exception):\n                raise\n        finally:",
-             "            if not isinstance(e, Exception):\n                raise\n        finally:"), "C26-R5")
+         sub("            if connection_record:\n                connection_record.invalidate(e=e)\n            if not isinstance(e, Exception):\n",
+             "            if not isinstance(e, Exception):\n"), "C26-R5")
 R.mutant("invalidate-time-written-by-dispose", "pool/impl.py",
          sub("        self._overflow = 0 - self.size()\n", "        self._overflow = 0 - self.size()\n        self._invalidate_time = 0\n"), "C26-R6")
 R.mutant("invalidate-time-written-by-record", POOL,
